@@ -103,6 +103,17 @@ func modeHeader(seed uint64, n int, out *sx.Out) {
 			line = sx.Pick(r, []string{"", "msg=audit(1.2:3)", "type= msg=audit(1.2:3):", "type=SYSCALL", "type=SYSCALL msg", "typ=X msg=audit(1.002:3): a=b", "x msg=audit(1.2:3)"})
 			wantOK = false
 		}
+		// the parser must be a function of its input: half of the cases are preceded by a parse of a related intact
+		// line (same timestamp; the same sequence number or a decimal prefix of it), whose result is thrown away
+		primed := ""
+		if r.Chance(1, 2) {
+			pn := uint64(N)
+			for k := r.Intn(3); k > 0; k-- {
+				pn /= 10
+			}
+			primed = fmt.Sprintf("type=SYSCALL msg=audit(%d.%03d:%d): x=1", S, mmm, pn)
+			auparse.ParseLogLine(primed)
+		}
 		m1, e1 := auparse.ParseLogLine(line)
 		// Parse on the text after msg= must agree with ParseLogLine
 		var m2 *auparse.AuditMessage
@@ -118,7 +129,7 @@ func modeHeader(seed uint64, n int, out *sx.Out) {
 			cls = "header/rendered"
 		}
 		coq := fmt.Sprintf("HCase %v %d %d %d %d %s %s %s %v %s", kind < 6, T, S, mmm, N, cs(after), cs(wantTS), cs(line), agree, msgCoq(m1, e1))
-		out.Case(coq, map[string]interface{}{"case": i, "line": line, "err": fmt.Sprint(e1), "labelled_ok": wantOK}, cls, e1 == nil)
+		out.Case(coq, map[string]interface{}{"case": i, "line": line, "err": fmt.Sprint(e1), "labelled_ok": wantOK, "parsed_just_before": primed}, cls, e1 == nil)
 	}
 }
 
